@@ -183,7 +183,10 @@ def execute(spec):
         elif out["solve_exc"] or out["system_exit"]:
             V("exception_with_flags", {"exc": out["solve_exc"] or "SystemExit", "frame": out.get("solve_frame"), "msg": out.get("solve_msg"), "flags": spec["flags"]})
         else:
-            differs = (out["solved"] != ref_out["solved"]) or (out["solved"] and not _close(out.get("objective"), ref_out.get("objective")))
+            # kLeastAbsErrors(Cycles) with error_scaling report the unscaled error sum while minimising the scaled one:
+            # the reported value is then not determined by the optimum, only solvability is compared (cf. C07)
+            obj_meaningful = not (world["args"].get("error_scaling") and cname in ("kLeastAbsErrors", "kLeastAbsErrorsCycles"))
+            differs = (out["solved"] != ref_out["solved"]) or (obj_meaningful and out["solved"] and not _close(out.get("objective"), ref_out.get("objective")))
             if differs:
                 # is it the library or the solver?  re-solve both sides under other native solver configurations
                 from sim import crosscheck
@@ -201,7 +204,7 @@ def execute(spec):
                 if rs != fs:
                     V("solvability_changed", {"reference_solved": rs, "solved": fs, "flags": spec["flags"], "faults_fired": out["fired"],
                                               "reference_runs": rall, "flagged_runs": fall})
-                elif rs and not crosscheck.close(rbest, fbest):
+                elif rs and obj_meaningful and not crosscheck.close(rbest, fbest):
                     V("objective_changed", {"reference": rbest, "objective": fbest, "flags": spec["flags"], "faults_fired": out["fired"],
                                             "reference_runs": rall, "flagged_runs": fall})
                 else:
